@@ -646,6 +646,162 @@ fn big_pool_prog(variant: usize) -> Prog {
     }
 }
 
+/// D109 family: callees with DEFAULT argument values declared in another file (lib.abra) and on other
+/// lines, called with the default omitted.  The frame of such a call is located at the call expression
+/// (for a multi-line call at its last written argument), an error inside the default's own expression at
+/// the default's declaration, and whatever follows the call on the same line at the call again.
+fn defaults_prog(variant: usize, in_fn: bool, pad: usize) -> Prog {
+    let mut lib = FileSrc { name: "lib.abra".into(), lines: vec![] };
+    let mut m = FileSrc { name: "main.abra".into(), lines: vec![] };
+    lib.push("fn bad(z: int) -> int {");
+    let l_bad = lib.push("  10 / z");
+    lib.push("}");
+    lib.push("fn zero() -> int {");
+    lib.push("  0");
+    lib.push("}");
+    lib.push("// declarations with defaults");
+    let l_fdiv_decl = lib.push("fn fdiv(a: int, b: int = 0, c: int = 1) -> int {");
+    let l_fdiv_body = lib.push("  a / b + c");
+    lib.push("}");
+    let l_gexpr_decl = lib.push("fn gexpr(a: int, b: int = 10 / zero()) -> int {");
+    lib.push("  a + b");
+    lib.push("}");
+    let l_gcall_decl = lib.push("fn gcall(a: int, b: int = bad(0)) -> int {");
+    lib.push("  a + b");
+    lib.push("}");
+    lib.push("fn fine(a: int, b: int = 4) -> int {");
+    lib.push("  a + b");
+    lib.push("}");
+    lib.push("type Pt = {");
+    lib.push("  x: int");
+    let l_pt_y = lib.push("  y: int = bad(0)");
+    lib.push("}");
+    lib.push("type Qt = {");
+    lib.push("  x: int");
+    lib.push("  y: int = 2");
+    lib.push("}");
+    lib.push("extend Qt {");
+    lib.push("  fn scaled(self, k: int = 0) -> int {");
+    let l_scaled_body = lib.push("    self.x / k");
+    lib.push("  }");
+    lib.push("}");
+    lib.push("type shape =");
+    lib.push("  | Circle(r: int = 3)");
+    let l_variant = lib.push("  | Rect(w: int, h: int = bad(0))");
+    let _ = (l_fdiv_decl,);
+    m.push("use lib");
+    for i in 0..pad {
+        m.push(format!("// pad {i}"));
+    }
+    let ind = if in_fn { "  " } else { "" };
+    let func = if in_fn { "caller" } else { "<main>" };
+    if in_fn {
+        m.push("fn caller(z: int) -> int {");
+    } else {
+        m.push("let z = 0");
+    }
+    m.push(format!("{ind}let q = Qt(8)"));
+    let mut chain: Vec<Frame> = vec![];
+    let mainf = |l: usize, f: &str| Frame { file: "main.abra".into(), lo: l, hi: l, func: f.into() };
+    let libf = |l: usize, f: &str| Frame { file: "lib.abra".into(), lo: l, hi: l, func: f.into() };
+    let kind_line = "error: division by zero";
+    let tag;
+    match variant {
+        0 => {
+            // failure inside the callee; the call omits two defaults
+            let l = m.push(format!("{ind}let r = fdiv(10 + z)"));
+            chain.push(libf(l_fdiv_body, "fdiv"));
+            chain.push(mainf(l, func));
+            tag = "default:fn-callee";
+        }
+        1 => {
+            // failure in the default's own expression: located at the declaration, inside the calling function
+            let _l = m.push(format!("{ind}let r = gexpr(1 + z)"));
+            chain.push(libf(l_gexpr_decl, func));
+            tag = "default:own-expression";
+        }
+        2 => {
+            // the default's expression calls a function that fails
+            let _l = m.push(format!("{ind}let r = gcall(1 + z)"));
+            chain.push(libf(l_bad, "bad"));
+            chain.push(libf(l_gcall_decl, func));
+            tag = "default:expression-calls";
+        }
+        3 => {
+            // after a call that took a default, on the same line
+            let l = m.push(format!("{ind}let r = fine(1) + 10 / z"));
+            chain.push(mainf(l, func));
+            tag = "default:after-call-same-line";
+        }
+        4 => {
+            // method with a default, failure inside the method
+            let l = m.push(format!("{ind}let r = q.scaled()"));
+            chain.push(libf(l_scaled_body, "scaled"));
+            chain.push(mainf(l, func));
+            tag = "default:method";
+        }
+        5 => {
+            // struct constructor whose default field value fails
+            let _l = m.push(format!("{ind}let p = Pt(1 + z)"));
+            chain.push(libf(l_bad, "bad"));
+            chain.push(libf(l_pt_y, func));
+            tag = "default:struct-field";
+        }
+        6 => {
+            // struct constructor with a default, then a failure on the same line
+            let l = m.push(format!("{ind}let r = Qt(5).y / z"));
+            chain.push(mainf(l, func));
+            tag = "default:struct-then-fail";
+        }
+        7 => {
+            // variant constructor whose default fails
+            let _l = m.push(format!("{ind}let s = shape.Rect(2 + z)"));
+            chain.push(libf(l_bad, "bad"));
+            chain.push(libf(l_variant, func));
+            tag = "default:variant";
+        }
+        8 => {
+            // multi-line call, default omitted: located at the last written argument
+            m.push(format!("{ind}let r = fdiv("));
+            let l = m.push(format!("{ind}  10 + z"));
+            m.push(format!("{ind})"));
+            chain.push(libf(l_fdiv_body, "fdiv"));
+            chain.push(mainf(l, func));
+            tag = "default:multi-line-call";
+        }
+        9 => {
+            // a call with a default as argument of a call whose callee fails: both frames at the call line
+            let l = m.push(format!("{ind}let r = fdiv(fine(1) - 5 + z, 0)"));
+            chain.push(libf(l_fdiv_body, "fdiv"));
+            chain.push(mainf(l, func));
+            tag = "default:nested";
+        }
+        _ => {
+            // variant constructor with a default that is fine, then a failing call with a default
+            m.push(format!("{ind}let c = shape.Circle()"));
+            let l = m.push(format!("{ind}let r = q.scaled(k = z)"));
+            chain.push(libf(l_scaled_body, "scaled"));
+            chain.push(mainf(l, func));
+            tag = "default:named-arg";
+        }
+    }
+    if in_fn {
+        m.push("  z");
+        m.push("}");
+        m.push("// call");
+        let l = m.push("println(caller(0))");
+        chain.push(mainf(l, "<main>"));
+    }
+    m.push("println(\"end\")");
+    Prog {
+        main: m.text(),
+        extra: vec![("lib.abra".into(), lib.text())],
+        kind_line: kind_line.into(),
+        chain,
+        tags: vec![tag.into()],
+    }
+}
+
 fn exec(p: &Prog) -> Res {
     let opts = RunOpts { files: p.extra.clone(), ..Default::default() };
     let run = run_program_opts(&p.main, &opts);
@@ -751,6 +907,13 @@ fn main() {
     // before the failing sites and call sites (the tables must be built from the final list)
     progs.insert(0, ("big_pool", big_pool_prog(0)));
     progs.insert(0, ("big_pool", big_pool_prog(1)));
+    // D109: calls that take default argument values declared in another file
+    for v in 0..11 {
+        for in_fn in [false, true] {
+            let pad = 3 + ctx.rng.below(40) as usize;
+            progs.push(("defaults", defaults_prog(v, in_fn, pad)));
+        }
+    }
     let results = par_map(&progs, |(_, p)| exec(p));
     for (idx, ((kind, p), r)) in progs.iter().zip(results).enumerate() {
         ctx.count(&format!("kind:{kind}"));
